@@ -780,7 +780,12 @@ class PluginHost(importlib.abc.MetaPathFinder, importlib.abc.Loader):
         if t == "ud":
             def parseUDToJson(subType, version, data):
                 args = (int(subType), int(version), bytes(data))
-                b = behave("parseUDToJson", args)
+                try:
+                    b = behave("parseUDToJson", args)
+                except ValueError:
+                    if choose_behaviour(spec, "release?", args) == "ok" and isinstance(data, memoryview):
+                        data.release()          # a parser that used `with data:` before failing
+                    raise
                 if b == "none":
                     return None
                 tag = hashlib.sha256(bytes(data)).hexdigest()[:16]
